@@ -10,3 +10,5 @@ from contracts import storage  # noqa
 from . import processor  # noqa
 from . import superrun  # noqa
 from . import lineage  # noqa
+from . import compute  # noqa
+from . import overlap  # noqa
